@@ -88,6 +88,10 @@ func scenarios(tier string) []scenario {
 		out = append(out, scenario{X: "stderrsink", Y: "stderrsink", Shared: shared, Senders: 2, Control: "none", Bound: b},
 			scenario{X: "stderrsink", Y: "stderrsink", Shared: shared, Senders: 1, Control: "reopen", Bound: b})
 	}
+	// a FileSink whose every write fails, shared by two pipelines and two senders (the Sends fail; what
+	// matters is that the failure path is as race-free as the normal one)
+	out = append(out, scenario{X: "fullfilesink", Y: "fullfilesink", Shared: true, Senders: 2, Control: "none", Bound: b},
+		scenario{X: "fullfilesink", Y: "fullfilesink", Shared: true, Senders: 1, Control: "reopen", Bound: b})
 	for i := range out {
 		s := &out[i]
 		// two full fan-outs (about ten threads) explode under free switches: bound
@@ -140,8 +144,20 @@ type payload struct {
 	N    int
 }
 
+// ewPayload additionally names an event id: encrypt.Filter derives a per-event wrapper for it and reads
+// its own salt and info for the HMACs (the EventWrapperInfo path).
+type ewPayload struct {
+	payload
+	HS string `class:"sensitive,hmac-sha256"`
+}
+
+func (p *ewPayload) EventId() string  { return "ev-19" }
+func (p *ewPayload) HmacSalt() []byte { return nil }
+func (p *ewPayload) HmacInfo() []byte { return nil }
+
 // line-recording writer (norace pre-allocated)
 type lineWriter struct {
+	probe int
 	n     int
 	lines [32][]byte
 	in    int
@@ -161,7 +177,13 @@ func (w *lineWriter) add(p []byte) {
 	w.in--
 }
 
-func (w *lineWriter) Write(p []byte) (int, error) { w.add(p); return len(p), nil }
+// Write is what a plain, not thread-safe io.Writer does: it touches its own state (probe is visible to
+// the race detector), so two Write calls that the sink does not serialise are a reported race.
+func (w *lineWriter) Write(p []byte) (int, error) {
+	w.probe++
+	w.add(p)
+	return len(p), nil
+}
 
 //go:norace
 func (w *lineWriter) all() [][]byte { return w.lines[:min(w.n, len(w.lines))] }
@@ -232,6 +254,12 @@ func (w *world) mk(kind string) (el.Node, string) {
 		return &el.FileSink{Path: p, FileName: "out.log", MaxBytes: 8}, ""
 	case "stderrsink":
 		return &el.FileSink{Path: "/dev/stderr"}, ""
+	case "fullfilesink":
+		// every write fails (the file is a symbolic link to /dev/full): the reopen-and-retry path runs
+		p := filepath.Join(w.dir, fmt.Sprintf("full%d", w.nodeN))
+		os.MkdirAll(p, 0o755)
+		os.Symlink("/dev/full", filepath.Join(p, "out.log"))
+		return &el.FileSink{Path: p, FileName: "out.log"}, ""
 	case "writersink":
 		lw := &lineWriter{}
 		w.writers = append(w.writers, lw)
@@ -327,10 +355,13 @@ func body(sc scenario, scratch string) func() string {
 			i := i
 			vrt.GoNamed(fmt.Sprintf("sender%d", i), func() {
 				var p interface{} = &payload{Pub: "pub", Sec: "sec", Sens: "sens", N: i}
+				if (sc.X == "enc" || sc.Y == "enc") && (i == 1 || sc.Control == "encrotate") {
+					p = &ewPayload{payload: payload{Pub: "pub", Sec: "sec", Sens: "sens", N: i}, HS: "hmac me"}
+				}
 				if sc.Gate {
 					p = &gp{ID: "g0", Flush: i == 1, Seq: i + 1}
 				}
-				if _, err := w.b.Send(ctx, "t", p); err != nil {
+				if _, err := w.b.Send(ctx, "t", p); err != nil && sc.X != "fullfilesink" {
 					vrt.Fail("Send %d failed: %v", i, err)
 				}
 			})
@@ -345,7 +376,7 @@ func body(sc scenario, scratch string) func() string {
 		case "encrotate":
 			vrt.GoNamed("encrotate", func() {
 				for _, f := range w.encs {
-					f.Rotate(encrypt.WithWrapper(shapes.NewWrapper(4)), encrypt.WithSalt([]byte("s2")))
+					f.Rotate(encrypt.WithWrapper(shapes.NewWrapper(4)), encrypt.WithSalt([]byte("s2")), encrypt.WithInfo([]byte("i2")))
 				}
 			})
 		case "cerotate":
